@@ -9,7 +9,9 @@
 from symx.env import NoTracing, realize, check, Fail, NATIVE
 from symx import lexenv
 
-from autobean_refactor import models
+import io
+
+from autobean_refactor import models, printer
 from autobean_refactor.models import base
 from autobean_refactor.models.internal import fields as F, repeated as R, placeholder as PH
 
@@ -73,6 +75,12 @@ def reblock(store, lf, pat, first):
 
 
 def text_of(model):
+    """What the REAL printer writes for the model (printer.print_model into a StringIO)."""
+    return printer.print_model(model, io.StringIO()).getvalue()
+
+
+def tokens_text(model):
+    """Concatenation of the raw texts of the model's tokens (the printer's specification)."""
     return ''.join(t.raw_text for t in model.tokens)
 
 
